@@ -26,7 +26,7 @@ def fval(v):
 
 
 def key(sc):
-    return (sc["model"], sc["order"], sc["resp"], sc.get("prep", "as_written"), tuple(sorted((e[0], e[1], e[2], tuple(sorted(e[3]))) for e in sc["plan"])))
+    return (sc["model"], sc["order"], sc["resp"], sc.get("prep", "as_written"), tuple(sorted((e[0], e[1], e[2], tuple(sorted(e[3])), e[4]) for e in sc["plan"])))
 
 
 def check(chk, sc, src, d0, d1, stale, reord=()):
@@ -34,7 +34,7 @@ def check(chk, sc, src, d0, d1, stale, reord=()):
                "final": {"%s@%d" % k: _plain(v) for k, v in d1.items()}, "stale": stale}
     text = "!equations\n" + "\n".join(src) + "\n"
     tagbase = "seqsim:%s:%s" % (sc["model"], sc["order"])
-    plan_desc = sorted((e[0], e[1], e[2], sorted(e[3])) for e in sc["plan"])
+    plan_desc = sorted((e[0], e[1], e[2], sorted(e[3])) + (() if e[4] == -1 else ("shift=%d" % e[4],)) for e in sc["plan"])
     desc = "model %s (%s)%s order=%s plan=%s residual pattern %d" % (sc["model"], " ".join(src), (" after reorder_equations(%s)" % (list(reord),)) if len(reord) else "", sc["order"], plan_desc, sc["resp"])
     base = T0() - 1          # period number t is base + t
     try:
@@ -50,9 +50,9 @@ def check(chk, sc, src, d0, d1, stale, reord=()):
         plan = None
         if sc["plan"]:
             plan = ir.SimulationPlan(m, span)
-            for (lhs, ptr, wd, mask) in sorted(sc["plan"], key=lambda e: e[0]):
+            for (lhs, ptr, wd, mask, sh) in sorted(sc["plan"], key=lambda e: e[0]):
                 dates = tuple(base + t for t in sorted(mask))
-                plan.exogenize(dates, lhs, transform=(None if ptr == "none" else ptr), when_data=bool(wd))
+                plan.exogenize(dates, lhs, transform=(None if ptr == "none" else ptr), when_data=bool(wd), **({} if sh == -1 else {"shift": int(sh)}))
         out = m.simulate(db, span, plan=plan, execution_order=sc["order"], when_simulates_nan="silent")
     except Exception as ex:
         chk.mismatch(tagbase + ":raised:" + type(ex).__name__, desc + ": raised %r" % (ex,), payload)
